@@ -101,6 +101,7 @@ CHECKS = {
     },
     "C07": {
         "legs": legs_simple("props", "^TestC07$", 14, 16),
+        "needs_cli": True,
         "rule": "enumerated: every lint alone (Filter IncludeNames=[l]) on K of its home objects (2 quick / all thorough); rapid: generated objects x generated valid FilterOptions "
                 "(singletons, subsets, sources, regexps, chains of two filters), on fresh parses and on one shared parsed object in both orders; inherited configurations (well- and ill-typed), and an earlier equal Filter whose result was reconfigured; lint-order oracle: corpus certificates, structured certificates and the home-sweep mutants (half of them in quick, all in thorough) are linted in the registry's order and in reverse order on fresh parses - every status must agree. Oracle: selected lints' status and "
                 "details equal the full run's, keys == selected lints of the kind, filtered flags imply full flags. Non-trivial = proper non-empty selection with >=1 finding among "
